@@ -177,6 +177,13 @@ def main(engine_mod, argv):
     coverage["known_finding_hits"] = {kid: n for kid, (k, n) in known_hits.items()}
     evals = coverage.get("evaluations", 0)
     coverage["runs_per_hour"] = int(evals / max(wall, 1e-6) * 3600)
+    # there are no clocks in funsor: "simulated time" is the number of simulator events
+    for key in ("simulated_steps_invariant_checks", "firings_in_undisturbed_runs", "events", "steps", "rand_calls_served", "memoize_interpret_calls_checked"):
+        if key in coverage:
+            coverage.setdefault("simulated_time", {"unit": "simulator events (%s)" % key, "covered": coverage[key]})
+            break
+    coverage.setdefault("simulated_time", {"unit": "simulator events (evaluations)", "covered": evals})
+    coverage["seeds_per_hour"] = round(3600.0 / max(wall, 1e-6), 1)
     coverage["worlds"] = sorted(
         {json.dumps({k: v for k, v in j["world"].items()}, sort_keys=True) for j in jobs}
     )[:40]
